@@ -38,10 +38,15 @@ class A(HasTraits):
     ys = List(Int)
     zs = List(Int, maxlen=3)
 
+    def _ys_default(self):
+        # (a List trait whose default comes from a method is a List trait like any other)
+        return []
+
 
 SCALARS = ("v", "w", "r")
 LISTS = ("xs", "ys", "zs")
-PAIRS = [["v", "v"], ["v", "w"], ["v", "r"], ["r", "v"], ["xs", "xs"], ["xs", "ys"], ["xs", "zs"], ["zs", "xs"]]
+PAIRS = [["v", "v"], ["v", "w"], ["v", "r"], ["r", "v"], ["xs", "xs"], ["xs", "ys"], ["xs", "zs"], ["zs", "xs"], ["ys", "ys"],
+         ["ys", "xs"]]
 MUT = ["append", "pop", "insert", "extend", "remove", "reverse", "sort", "clear", "setitem", "delitem", "slice", "imul",
        "extslice", "delext", "iadd", "slice_grow"]
 
